@@ -599,6 +599,9 @@ def check(run, repo):
         run.check(ok, 'EFFECT.shared-state', 'constants.convert_unit', 'second call:%s->%s' % (a, b),
                   'a conversion depends on the conversions made before it: x, then y, then x again give %r, %r, %r; a '
                   'second array gives %r (expected %r)' % (r1, r2, r3, s2, ws), m, cu)
+    # a unit that has a factor but no declared quantity type: of one type at most, and the same answer whatever was
+    # converted before
+    undeclared_units(run, repo, m, cu, type_dict, sorted(set(ud) - set(type_dict)), by_type, alike)
     # num omitted -> factor only
     r = call(I, m, 'convert_unit', initial='J', final='kJ')
     run.check(isinstance(r, Rat) and 'kJ' in factor and 'J' in factor and r.eq(factor['kJ'] / factor['J']),
@@ -921,8 +924,73 @@ def check(run, repo):
     run.extra['pairs_checked'] = pairs_ok
 
 
+def undeclared_units(run, repo, m, cu, type_dict, undeclared, by_type, alike):
+    """units the table of factors knows but the table of quantity types does not declare ('yr', 'particle').
+
+    "Converting between different quantity types is refused" and "reflexive, invertible and transitive for every pair
+    and triple" say two things about such a unit u, whatever the code makes of it (refuses it everywhere, or gives it a
+    type in some way):
+
+    * from a fresh state u converts with units of ONE quantity type at most: were u -> v1 and u -> v2 both answered
+      with v1, v2 of different declared types, v1 -> u -> v2 would be a conversion between two quantity types;
+    * whether (and how) u converts with v does not depend on which conversions were asked for before: "for every
+      pair" has no order of asking in it.  Every history below starts in a fresh state, makes ONE conversion whose
+      result is not looked at (u -> v1 or v1 -> u, v1 running over one unit of every type), and then asks u -> v2,
+      v2 -> u (one v2 of every type) and u -> u: each answer must be the answer of the fresh state.
+
+    A fresh state is a new interpreter in which the module-level name of the type table is bound to ONE dictionary
+    holding what the import leaves behind (Python's semantics of a module global: every call reads and writes the same
+    object).  A type that is remembered correctly - looked up again, or cached under everything it depends on - gives
+    the same answers in every history and stays silent."""
+    if not undeclared:
+        return
+    reps = [sorted(us_)[0] for _t, us_ in sorted(by_type.items())]
+    type_of = dict(type_dict)
+
+    def fresh():
+        I = interp_for_constants(repo)
+        I.order = Watch({'x': 1}, ('x',), const_ranks=True)
+        I.global_vars[(m.name, 'type_dict')] = DictV(dict(type_dict))
+        return I
+
+    def conv(I, a, b):
+        return call(I, m, 'convert_unit', num=I.D.sym('x'), initial=a, final=b)
+
+    def answered(r_):
+        return r_ is not None and not isinstance(r_, Raised)
+
+    def show(r_):
+        return 'x -> %r' % (r_,) if answered(r_) else 'refused (%r)' % (r_,)
+
+    for u in undeclared:
+        asked = [(u, u)] + [p_ for v in reps for p_ in ((u, v), (v, u))]
+        first = {p_: conv(fresh(), *p_) for p_ in asked}
+        with_types = sorted({type_of[v] for v in reps if answered(first[(u, v)]) or answered(first[(v, u)])})
+        run.check(len(with_types) <= 1, 'ORDER.refuse', 'constants.convert_unit',
+                  'undeclared unit:%s [fresh state, one unit of every quantity type]' % u,
+                  'the unit %r has a factor but no declared quantity type, and in a fresh state it converts with units of '
+                  '%d quantity types (%s): through it a conversion between different quantity types is answered, e.g. %s'
+                  % (u, len(with_types), ', '.join(with_types),
+                     '; '.join('%s -> %s: %s' % (u, v, show(first[(u, v)])) for v in reps
+                               if answered(first[(u, v)]))[:300]), m, cu)
+        for v1 in reps:
+            for before in ((u, v1), (v1, u)):
+                I = fresh()
+                conv(I, *before)            # its result is not looked at
+                diff = []
+                for p_ in asked:
+                    r_ = conv(I, *p_)
+                    if not alike(r_, first[p_]) and not (r_ is None and first[p_] is None):
+                        diff.append('%s -> %s: %s, in a fresh state %s' % (p_[0], p_[1], show(r_), show(first[p_])))
+                run.check(not diff, 'EFFECT.shared-state', 'constants.convert_unit',
+                          'undeclared unit:%s [after one conversion %s -> %s]' % ((u,) + before),
+                          'what converting with the unit %r (a factor, no declared quantity type) answers depends on the '
+                          'conversion made before it: after %s -> %s, %s' % ((u,) + before + ('; '.join(diff[:4]),)),
+                          m, cu)
+
+
 def helpers(run, repo, I, m, values, same):
-    kinds = ('energy', 'freq', 'temp', 'wavenumber')
+    kinds =('energy', 'freq', 'temp', 'wavenumber')
     x = I.D.sym('x')
     fns = {}
     for a, b in itertools.permutations(kinds, 2):
